@@ -120,8 +120,50 @@ func (e *Error) PrettyPrint(w io.Writer, source []byte) {
 	green.Fprintln(w, e.getIndicator(line))
 }
 
+// scanYAMLLines is a split function for bufio.Scanner. It splits the input at the line breaks which the
+// YAML parser counts for line numbers: CRLF, LF, CR, NEL (U+0085), LS (U+2028) and PS (U+2029).
+func scanYAMLLines(data []byte, atEOF bool) (int, []byte, error) {
+	for i := 0; i < len(data); i++ {
+		n := 0
+		switch data[i] {
+		case '\n':
+			n = 1
+		case '\r':
+			if i+1 == len(data) && !atEOF {
+				return 0, nil, nil // More data is necessary to distinguish CRLF from CR
+			}
+			n = 1
+			if i+1 < len(data) && data[i+1] == '\n' {
+				n = 2
+			}
+		case 0xC2:
+			if i+1 == len(data) && !atEOF {
+				return 0, nil, nil
+			}
+			if i+1 < len(data) && data[i+1] == 0x85 {
+				n = 2
+			}
+		case 0xE2:
+			if i+2 >= len(data) && !atEOF {
+				return 0, nil, nil
+			}
+			if i+2 < len(data) && data[i+1] == 0x80 && (data[i+2] == 0xA8 || data[i+2] == 0xA9) {
+				n = 3
+			}
+		}
+		if n > 0 {
+			return i + n, data[:i], nil
+		}
+	}
+	if atEOF && len(data) > 0 {
+		return len(data), data, nil
+	}
+	return 0, nil, nil
+}
+
 func (e *Error) getLine(source []byte) (string, bool) {
 	s := bufio.NewScanner(bytes.NewReader(source))
+	s.Split(scanYAMLLines)
 	l := 0
 	for s.Scan() {
 		l++
